@@ -125,6 +125,78 @@ Definition fully_embedded3 (st : state2) : bool :=
 Definition closed_volumes3 (st : state2) : bool :=
   forallb (fun d => is_free3 (mem st) d || negb (beta (mem st) 2 d =? 0)) (in_use3 st).
 
+(** the premise "no cell takes part in more than one merge or split of the call", read off the merges / splits
+    the call performs (the model's own pair lists; the model is tied to the code by the correspondence runs) *)
+Fixpoint ids_disjoint (ps : list (N * N)) : bool :=
+  match ps with
+  | [] => true
+  | (a, c) :: r =>
+    negb (existsb (fun q => (fst q =? a) || (snd q =? a) || (fst q =? c) || (snd q =? c)) r) && ids_disjoint r
+  end.
+Definition proper_pairs (ps : list (N * N)) : list (N * N) :=
+  filter (fun q => negb (fst q =? snd q) && negb (fst q =? 0) && negb (snd q =? 0)) ps.
+Definition n3 (st : state2) : N := nd st.
+Definition pairs_sew3 (st : state2) (l r : N) : option (list (N * N) * list (N * N)) :=
+  ev3 st (lo <- orbit_tx3 (n3 st) [1; 0] l ;; ro <- orbit_tx3 (n3 st) [0; 1] r ;; sew3_pairs (n3 st) lo ro).
+(* the pairs three_unsew splits, computed on the state after the 3-unlink *)
+Fixpoint unsew3_pair_list (n : N) (ls rs : list N) : prog (list (N * N) * list (N * N)) :=
+  match ls, rs with
+  | l :: ls', r :: rs' =>
+    el <- edge_id3 n l ;; er <- edge_id3 n r ;;
+    x <- next_or_b2 l ;;
+    v1 <- vertex_id3 n x ;; v2 <- vertex_id3 n r ;;
+    b0l <- rdB 0 l ;;
+    extra <- (if b0l =? 0 then
+                y <- next_or_b2 r ;; w1 <- vertex_id3 n l ;; w2 <- vertex_id3 n y ;; Ret [(w1, w2)]
+              else Ret []) ;;
+    rest <- unsew3_pair_list n ls' rs' ;;
+    Ret ((el, er) :: fst rest, (v1, v2) :: extra ++ snd rest)
+  | _, _ => Ret ([], [])
+  end.
+Definition pairs_unsew3 (st : state2) (l : N) : option (list (N * N) * list (N * N)) :=
+  match step3 None st (Force3 (U3 l)) with
+  | (ROk _, stu) =>
+    let r := beta (mem st) 3 l in
+    ev3 (compact3 stu) (lo <- orbit_tx3 (n3 st) [1; 0] l ;; ro <- orbit_tx3 (n3 st) [0; 1] r ;; unsew3_pair_list (n3 st) lo ro)
+  | _ => None
+  end.
+Definition vid3 (st : state2) (d : N) : N := cid3 st QVertex d.
+Definition single_use_call3 (st : state2) (c : call3) : bool :=
+  let s := mem st in
+  match c with
+  | S3 l r =>
+    match pairs_sew3 st l r with
+    | Some (es, vs) => ids_disjoint (proper_pairs es) && ids_disjoint (proper_pairs vs)
+    | None => false
+    end
+  | X3 l =>
+    match pairs_unsew3 st l with
+    | Some (es, vs) => ids_disjoint (proper_pairs es) && ids_disjoint (proper_pairs vs)
+    | None => false
+    end
+  | S2 l r =>
+    let b1l := beta s 1 l in let b1r := beta s 1 r in
+    ids_disjoint (proper_pairs ((if b1r =? 0 then [] else [(vid3 st l, vid3 st b1r)]) ++
+                                (if b1l =? 0 then [] else [(vid3 st b1l, vid3 st r)])))
+  | X2 l =>
+    let r := beta s 2 l in
+    match step3 None st (Force3 (U2 l)) with
+    | (ROk _, stu) =>
+      let su := compact3 stu in
+      let b1l := beta s 1 l in let b1r := beta s 1 r in
+      ids_disjoint (proper_pairs ((if b1r =? 0 then [] else [(vid3 su l, vid3 su b1r)]) ++
+                                  (if b1l =? 0 then [] else [(vid3 su b1l, vid3 su r)]))) &&
+      ((b1l =? 0) || (b1r =? 0) || negb (vid3 st l =? vid3 st r))
+    | _ => false
+    end
+  | _ => true
+  end.
+
+(** a complex of polyhedral cells: no cell is glued to itself through beta3 *)
+Definition no_self_glue3 (st : state2) (c : call3) : bool :=
+  forallb (fun d => (beta (mem st) 3 d =? 0) || negb (cid3 st QVolume d =? cid3 st QVolume (beta (mem st) 3 d))) (in_use3 st) &&
+  match c with S3 l r => negb (cid3 st QVolume l =? cid3 st QVolume r) | _ => true end.
+
 Definition link_of3 (c : call3) : option call3 :=
   match c with
   | S1 l r => Some (L1 l r) | S2 l r => Some (L2 l r) | S3 l r => Some (L3 l r)
@@ -138,7 +210,7 @@ Definition oracle_sew3 (ts : list tok) : list (list tok) :=
   | Some (pre, TZ 5%Z :: TZ fa :: callt, post) =>
     match obs_state3 pre, obs_state3 post, post, parse_call3 callt with
     | Some st, Some st', TZ cls :: _, Some (c, []) =>
-      if negb (wf3b (nd st) (mem st) && pre_call3b (nd st) (mem st) c && closed_faces3 st) then [[TZ 2%Z]] else
+      if negb (wf3b (nd st) (mem st) && pre_call3b (nd st) (mem st) c && closed_faces3 st && no_self_glue3 st c && single_use_call3 st c) then [[TZ 2%Z]] else
       match link_of3 c with
       | None => [[TZ 2%Z]]
       | Some lc =>
